@@ -140,6 +140,32 @@ def ins_guard_first(tree):
     return bool(ok)
 
 
+def populate_publishes_after_fill(tree):
+    """table fact about `NestedSampler.populate_live_points`: every statement that assigns `self.live_points` (the attribute,
+    an item or a slice of it, an augmented assignment) comes AFTER the last loop of the function — i.e. the array a signal
+    handler would pickle is bound only once it is complete.  Returns (flag, [(line, target, after_last_loop)])."""
+    fn = _func(tree, "NestedSampler", "populate_live_points")
+    loops = [n for n in ast.walk(fn) if isinstance(n, (ast.While, ast.For))]
+    last_loop_end = max((n.end_lineno for n in loops), default=0)
+    sites = []
+    for n in ast.walk(fn):
+        targets = []
+        if isinstance(n, ast.Assign):
+            targets = n.targets
+        elif isinstance(n, (ast.AugAssign, ast.AnnAssign)):
+            targets = [n.target]
+        for t in targets:
+            for sub in ast.walk(t):
+                if isinstance(sub, ast.Attribute) and sub.attr == "live_points" and isinstance(sub.value, ast.Name) \
+                        and sub.value.id == "self":
+                    sites.append((n.lineno, ast.unparse(t), n.lineno > last_loop_end))
+    if not sites:
+        raise TranslationError("populate_live_points: no assignment of self.live_points found")
+    if not loops:
+        raise TranslationError("populate_live_points: no draw loop found")
+    return all(a for _, _, a in sites), sites
+
+
 def gen(ctx):
     src1 = core.REPO / "nessai" / "samplers" / "nestedsampler.py"
     src2 = core.REPO / "nessai" / "samplers" / "importancesampler.py"
@@ -151,7 +177,9 @@ def gen(ctx):
         if sorted(order) != sorted(TAGS) and not set(order) <= set(TAGS):
             raise TranslationError(f"unknown tags {order}")
         guard = ins_guard_first(t2)
-        text1 = ast.get_source_segment(src1.read_text(), consume) + ast.get_source_segment(src1.read_text(), insert)
+        publish, publish_sites = populate_publishes_after_fill(t1)
+        text1 = ast.get_source_segment(src1.read_text(), consume) + ast.get_source_segment(src1.read_text(), insert) \
+            + ast.get_source_segment(src1.read_text(), _func(t1, "NestedSampler", "populate_live_points"))
         text2 = ast.get_source_segment(src2.read_text(), _func(t2, "ImportanceNestedSampler", "checkpoint"))
     except (TranslationError, SyntaxError, OSError) as e:
         ctx.broken(f"translator: {e}")
@@ -160,17 +188,21 @@ def gen(ctx):
     body = (
         "import NessaiVerif.Model.Interrupt\n"
         "/- GENERATED by harness/c13.py gen() — do not edit.\n"
-        f"   source: nessai/samplers/nestedsampler.py NestedSampler.consume_sample (line {consume.lineno}) + insert_live_point (line {insert.lineno}),\n"
+        f"   source: nessai/samplers/nestedsampler.py NestedSampler.consume_sample (line {consume.lineno}) + insert_live_point (line {insert.lineno}) + populate_live_points,\n"
         "           nessai/samplers/importancesampler.py ImportanceNestedSampler.checkpoint\n"
         f"   sha256 of the translated source text: {sha} -/\n"
         "namespace NessaiVerif.Gen.Interrupt\nopen NessaiVerif.Interrupt\n"
         f"def consumeOrder : List Tag := [{', '.join('.' + t for t in order)}]\n"
         f"def insGuardFirst : Bool := {'true' if guard else 'false'}\n"
+        "/-- `populate_live_points` binds `self.live_points` only after its draw loop (sites: "
+        + "; ".join(f"line {ln} `{tg}`" for ln, tg, _ in publish_sites) + ") -/\n"
+        f"def populatePublishesAfterFill : Bool := {'true' if publish else 'false'}\n"
         "end NessaiVerif.Gen.Interrupt\n")
     path = core.LEAN / "NessaiVerif" / "Gen" / "Interrupt.lean"
     if not path.exists() or path.read_text() != body:
         path.write_text(body)
-    ctx.extra["translated"] = {"order": order, "ins_guard_first": guard, "lines": [(t, ln, fn) for t, ln, fn in tags]}
+    ctx.extra["translated"] = {"order": order, "ins_guard_first": guard, "populate_publishes_after_fill": publish,
+                               "populate_live_points_assignments": [list(x) for x in publish_sites], "lines": [(t, ln, fn) for t, ln, fn in tags]}
     return tags
 
 
